@@ -277,6 +277,39 @@ def g_dimensions():
     return run
 
 
+def g_dimensions_views():
+    """the molar / mass / volumetric views themselves (indexer.get_data / set_data with units): a unit of another
+    dimension is rejected, also after that very unit was used legitimately through the view it belongs to"""
+    def run(E):
+        th = _fx['th']
+        s, fl = S.mk_stream(E, 'f', th, 'l', presence=[1, 1])
+        s._thermal_condition._T = TS[0]
+        s._thermal_condition._P = PS[0]
+        _vcache.clear()
+        own = {'mol': 'mol/s', 'mass': 'lb/hr', 'vol': 'L/min'}
+        view = E.pick(['mol', 'mass', 'vol'], 'view')
+        foreign = E.pick([v for v in own if v != view], 'unit-of-view')
+        unit = own[foreign]
+        if E.choice(2, 'unit-used-legitimately-before'):
+            getattr(s, 'i' + foreign).get_data(unit, 'Water')
+        how = E.pick(['get_data', 'set_data'], 'how')
+        before = [s.imol.data.dct.get(i, 0.0) for i in range(N)]
+        sig = f'i{view}.{how}({unit})'
+        try:
+            if how == 'get_data':
+                getattr(s, 'i' + view).get_data(unit, 'Water')
+            else:
+                getattr(s, 'i' + view).set_data(1.0, unit, 'Water')
+        except Exception as e:       # noqa
+            E.prove('dimension-mismatch-rejected', type(e).__name__ in ('DimensionError', 'DimensionalityError', 'ValueError'), sig=sig,
+                    info=dict(exc=repr(e)[:100]))
+            after = [s.imol.data.dct.get(i, 0.0) for i in range(N)]
+            E.prove('rejected-write-leaves-the-flows-untouched', all(a is b or (E.concrete and a == b) for a, b in zip(after, before)), sig=sig)
+            return
+        E.prove('dimension-mismatch-rejected', False, sig=sig)
+    return run
+
+
 BUDGET_S = {'quick': 600, 'thorough': 1200}
 
 
@@ -293,6 +326,7 @@ def groups(tier):
         # link, then either side unlinks, then a write on either side: the views of the two streams are independent again
         'link-unlink-then-write': (g_sequences(3, ['l'], [['link'], ['unlink', 'unlink-other'], ['write', 'write-other']], check_last_only=True), dict(max_paths=400000, qtimeout_ms=20000)),
         'dimension-mismatch': (g_dimensions(), {}),
+        'dimension-mismatch-views': (g_dimensions_views(), {}),
     }
     if not q:
         g['two-operations'] = (g_sequences(2, ['l']), dict(max_paths=2000000, qtimeout_ms=20000, task_budget_s=300))
